@@ -45,36 +45,44 @@ ID = "C10"
 LEVEL = "proof"
 ENGINES = ["lean-model", "pyextract", "kopfsim"]
 LEVEL_TEXT = (
-    "Lean theorems for ALL configurations (interval/sharp/idle/initial_delay present or absent, backoff, errors mode, "
-    "retries), all run records (any duration, any patch round trip), all result scripts and all timings of object changes "
-    "(an arbitrary view of idle_reset_time): no_overlap (induction over the run sequence), interval_law (next start = end "
-    "of the post-run patch + interval, later only through the idle gate, with the exact form of the postponement), "
-    "sharp_grid (start + k*interval, k>=1, the first grid point strictly after the post-run patch), error_delay_law "
-    "(max(patched, ended + delay); classify_temporary/classify_arbitrary give delay = the error's delay / the backoff), "
-    "initial_delay_law (every spawn), idle_only_law, one_shot, attempt_law. The idle clause is PARTIAL: idle_law_partial "
-    "(induction over the run sequence) bounds every start by idle after the last change the operator REGISTERED "
-    "(idle_reset_time); idle_reset_flip_back_witness proves that a change restoring the last-handled essence is not "
-    "registered (finding C10-F1, replayed on the real operator in every run). permanent_is_last / failed_is_last: a run "
-    "that failed for good (classify_permanent) has no successor run in any run sequence. "
-    "The model is hand-written; its branch chain, loop conditions, sleep arithmetic and statement skeleton are re-extracted "
-    "from the AST on every run and proved equal (T), and its step function is compared run by run, tick-exact, with the "
-    "real operator in seeded closed-loop simulations (S). Assumes interval > 0 where present and no handler timeout.")
-TIE = ("T: post-run branch chain + idle-gate/poll expressions + statement skeleton of daemons._timer re-extracted and proved "
-       "equal to the model; S: per run of closed-loop simulations, exact tick equality of the next start with the model")
+    "Lean theorems about a state-carrying model of the _timer loop (the in-memory handler state is carried from iteration "
+    "to iteration; whether an iteration invokes the function is derived from it), for ALL configurations "
+    "(interval/sharp/idle/initial_delay present or absent, backoff, errors mode, retries), all iteration records (any "
+    "duration, any patch round trip), all result scripts and all timings of object changes: no_overlap; "
+    "invoked_unless_failed (invariant: every iteration is a run until the timer fails for good) and failed_is_last (after a "
+    "final failure no iteration of any sequence invokes the function — derived from the kept state, not stipulated); "
+    "interval_law / sharp_grid / error_delay_law at sequence level (the next iteration IS a run and starts at patched + "
+    "interval / the first grid point start + k*interval strictly after patched / max(patched, ended + delay), later only "
+    "through the idle gate, with the exact form of the postponement); initial_delay_law (every spawn); idle_only_law; "
+    "one_shot. Idle clause: idle_law (arbitrary view of idle_reset_time), idle_law_registered (idle_reset_time derived "
+    "from an arbitrary event history: no start within idle after any change the operator registered); the FULL clause "
+    "(FullIdle: after any essential change) is proved under the exact guard AllEssentialRegistered (idle_law_partial) and "
+    "refuted in general by a concrete schedule (idle_full_clause_false_witness: A -> B -> A with B never handled; open "
+    "finding C10-F1, replayed on the real operator in every run). The model is hand-written; its branch chain, reset "
+    "condition, loop conditions, sleep arithmetic and statement skeleton are re-extracted from the AST on every run and "
+    "proved equal (T), and every loop iteration of seeded closed-loop simulations is compared with it (S): invocation "
+    "decision, retry kwarg, state after the run, next start (tick-exact), carried state at the next iteration, the reset "
+    "decision per processed event and every read of idle_reset_time against the value derived from the event history. "
+    "Assumes interval > 0 where present and no handler timeout.")
+TIE = ("T: post-run branch chain + state-reset condition + idle-gate/poll expressions + stopper guards + statement skeleton of "
+       "daemons._timer re-extracted and proved equal to the model; S: per loop iteration of closed-loop simulations: invocation "
+       "decision, carried state, exact tick equality of the next start; per event the reset decision; per read the derived view")
 THEOREMS = [("Kopf.Props.C10", "Kopf.C10." + n) for n in [
-    "no_overlap_step", "no_overlap", "interval_law", "sharp_grid", "error_delay_law", "classify_temporary",
-    "classify_arbitrary", "initial_delay_law", "idle_law_partial", "reset_on_unhandled_change", "idle_reset_flip_back_witness", "idle_only_law", "one_shot", "attempt_law",
-    "permanent_is_last", "failed_is_last", "classify_permanent"]]
+    "no_overlap_step", "no_overlap", "invoked_unless_failed", "failed_is_last", "failed_run_marks_state",
+    "success_marks_state", "interval_law_step", "interval_law", "sharp_grid_step", "sharp_grid", "error_delay_step",
+    "error_delay_law", "initial_delay_law", "idle_law", "idle_law_registered", "idle_law_partial",
+    "idle_full_clause_false_witness", "idle_only_law", "one_shot"]]
 TIE_THEOREMS = [("Kopf.Tie.C10", "Kopf.C10.Tie." + n) for n in [
-    "post_eq", "idle_cond_eq", "idle_delay_eq", "poll_cond_eq", "poll_delay_eq", "shape_eq", "stopper_guards_eq", "idle_step_eq", "poll_step_eq"]]
+    "post_eq", "reset_top_eq", "at_top_eq", "idle_cond_eq", "idle_delay_eq", "poll_cond_eq", "poll_delay_eq", "shape_eq", "stopper_guards_eq", "idle_step_eq", "poll_step_eq"]]
 RULE = ("seeded scenarios: 1-2 timers on 1-2 objects, all 16 presence combinations of interval/sharp/idle/initial_delay "
         "(stratified), scripted results ok/ok+result/ok+patch/temporary(delay)/arbitrary/permanent with function durations "
         "0, <, =-1tick, =, =+1tick, > the interval (1.5x, 2x, 2.5x), backoff/retries/errors options, optional update handler "
         "(so that status patches are / are not idle resets), status subresource (2 PATCH round trips), object edits at random "
         "dyadic times, label toggles (respawn) and operator restarts for timers with an interval; a second pass replays a "
         "third of the scenarios with one extra edit placed exactly at an observed start, at start - idle, and 1 tick either "
-        "side; one case = one gap (spawn -> first run, run -> next run); distinct & non-trivial = distinct abstracted "
-        "(option presence, result kind, duration class, patch round trips, gate outcome) tuples")
+        "side; one case = one loop iteration (or spawn -> first iteration), one processed event (reset decision) or one timer "
+        "task's reads of idle_reset_time (derived view); distinct & non-trivial = distinct abstracted (option presence, carried "
+        "state class, result kind or nothing-awakened, duration class, patch round trips, last-handled relation) tuples")
 TRUSTED = ["harness/sim (virtual-time loop, fake API server with 1/64 s latency, scripted handlers)",
            "the C10 probe: attribute-level wrappers of daemons._timer / execute_handlers_once / patch_and_check and a "
            "logging property on DaemonsMemory.idle_reset_time",
@@ -117,6 +125,10 @@ POST_VOCAB = {
     "handler.interval is not None": "a.hasInterval",
     "handler.sharp": "a.sharp",
     "handler.idle is not None": "a.hasIdle",
+}
+TOP_VOCAB = {
+    "state.done": "a.done",
+    "state.counts.failure": "a.anyFailure",
 }
 SLEEP_WAKEUPS = {"stopper.async_event", "cause.stopper.async_event"}
 
@@ -228,12 +240,12 @@ def extract(ctx: Ctx) -> None:
     if loop is None:
         raise ExtractError("_timer: the main loop is gone")
     steps: list[str] = []
-    idle_cond = idle_delay = post_body = None
+    idle_cond = idle_delay = post_body = reset_top = None
     for st in loop.body:
         text = pyextract.norm(st)
-        if isinstance(st, ast.If) and pyextract.norm(st.test) == "state.done and (not state.counts.failure)" and not st.orelse \
-                and len(st.body) == 1 \
+        if isinstance(st, ast.If) and not st.orelse and len(st.body) == 1 and reset_top is None and not steps \
                 and pyextract.norm(st.body[0]) == "state = progression.State.from_scratch().with_handlers([handler])":
+            reset_top = pyextract.BoolTranslator(TOP_VOCAB).tr(st.test)     # when the carried state is replaced by a fresh one
             steps.append("Step.resetUnlessFailed")
         elif isinstance(st, ast.If) and pyextract.norm(st.test) == "handler.idle is not None" and not st.orelse:
             if len(st.body) != 2 or not isinstance(st.body[0], ast.While) or st.body[0].orelse \
@@ -273,8 +285,8 @@ def extract(ctx: Ctx) -> None:
             steps.append("Step.post")
         else:
             raise ExtractError(f"_timer loop: statement outside the skeleton: `{text[:160]}`")
-    if idle_cond is None or idle_delay is None or post_body is None:
-        raise ExtractError("_timer loop: idle gate or post-run chain not found")
+    if idle_cond is None or idle_delay is None or post_body is None or reset_top is None:
+        raise ExtractError("_timer loop: state reset, idle gate or post-run chain not found")
     # the poll loop's condition/sleep are inside the chain; extract them separately for their own tie
     poll = [n for n in ast.walk(loop) if isinstance(n, ast.While) and _poll_test(n.test) is not None]
     if len(poll) != 1:
@@ -290,6 +302,8 @@ def extract(ctx: Ctx) -> None:
     out += f"def loopBody : List Step := [{', '.join(steps)}]\n\n"
     out += "/-- the post-run branch chain -/\n"
     out += f"def post (a : PostAtoms) : Post :=\n    {post_body}\n\n"
+    out += "/-- the carried state is replaced by a fresh one at the top of the loop -/\n"
+    out += f"def resetAtTop (a : TopAtoms) : Bool := {reset_top}\n\n"
     out += f"def idleCond (a : GateAtoms) : Bool := {idle_cond}\n\n"
     out += f"def idleDelay (a : GateAtoms) : Int := {idle_delay}\n\n"
     out += f"def pollCond (a : GateAtoms) : Bool := {poll_cond}\n\n"
@@ -352,7 +366,12 @@ class Probe:
             if inst is None or len(hs) != 1 or not isinstance(hs[0], handlers_.TimerHandler) or inst.get("busy"):
                 return await orig_exec(*a, **kw)
             st = kw["state"][hs[0].id]
-            it: dict[str, Any] = {"t0": now(), "attempt": int(st.retries or 0), "t1": None, "p0": None, "p1": None}
+            from ..sim import simloop as _sl
+            off = _sl.WALL.now_s() - now()      # wall clock vs loop clock (0 within one loop)
+            dl = None if st.delayed is None else (st.delayed - _sl.EPOCH).total_seconds() - off
+            it: dict[str, Any] = {"t0": now(), "attempt": int(st.retries or 0), "t1": None, "p0": None, "p1": None,
+                                  "state": {"retries": int(st.retries or 0), "success": bool(st.success), "failure": bool(st.failure),
+                                            "delayed": dl}}
             if len(inst["iters"]) >= 2000 and inst["iters"][-2000]["t0"] == it["t0"]:
                 inst["spin"] = True     # 2000 runs within one instant: stop observing a loop that never suspends
                 raise RuntimeError("C10 probe: the timer loop runs without ever suspending")
@@ -435,6 +454,19 @@ def _drop_empty(x: Any) -> Any:
     return x
 
 
+def _norms(body: dict) -> tuple[Any, Any]:
+    """(essence of the body, last-handled essence it carries or None), both in one normal form"""
+    e = _essence(body)
+    cur = _drop_empty({"spec": e["spec"], "metadata": {"labels": e["labels"], "annotations": e["annotations"]}, **e["other"]})
+    ann = (body.get("metadata", {}).get("annotations") or {}).get("kopf.zalando.org/last-handled-configuration")
+    if ann is None:
+        return cur, None
+    try:
+        return cur, _drop_empty(json.loads(ann))
+    except ValueError:
+        return cur, None
+
+
 def _lh_same(body: dict) -> bool | None:
     """Does the object's essence equal the last-handled essence it carries? (None: nothing stored.)
     Used only to classify an idle-clause failure into the known finding C10-F1."""
@@ -483,7 +515,7 @@ def run_one(sc: dict, wall: float) -> dict:
              for c in tr.get("calls", []) if c.get("kind") == "timer"]
     cycles = [{"t0": c["t0"], "uid": c["uid"], "event_type": c["event_type"], "rv": c["rv"], "ess": _essence(c["body"]),
                "marked": bool(c["body"].get("metadata", {}).get("deletionTimestamp")), "inc": c["inc"],
-               "lh_same": _lh_same(c["body"])}
+               "lh_same": _lh_same(c["body"]), "ess_norm": _norms(c["body"])[0], "lh_norm": _norms(c["body"])[1]}
               for c in tr.get("cycles", [])]
     npatch = sum(1 for r in tr.get("requests", []) if r.get("method") == "PATCH")
     return {"calls": calls, "cycles": cycles, "marks": tr.get("marks", []), "sim_error": tr.get("sim_error"),
@@ -898,8 +930,13 @@ def _obs(inst: dict, lo: float, hi: float) -> list | None:
     return sorted([t, v] for t, v in seen.items())
 
 
+def _state_json(st: dict) -> dict:
+    return {"retries": st["retries"], "success": st["success"], "failure": st["failure"], "delayed": ticks(st["delayed"])}
+
+
 def abstract(sc: dict, tr: dict) -> list[dict]:
-    """One item per gap: {"req": driver request, "impl": observed, "what": .., "shape": ..}"""
+    """One item per timer task (spawn → first iteration) and per completed loop iteration:
+    {"req": driver request, "impl": observed, "what": .., "shape": ..}"""
     cfgs = _timer_cfgs(sc)
     end = float(sc.get("end", 60.0))
     calls: dict[tuple, dict] = {}
@@ -915,116 +952,160 @@ def abstract(sc: dict, tr: dict) -> list[dict]:
             items.append({"what": "crashed", "inst": {"uid": inst["uid"], "id": inst["id"], "how": inst.get("how"), "spin": inst.get("spin", False),
                                                       "exit": inst["exit"]}})
         alive_until = inst["exit"] if inst["exit"] is not None else end
-        # runs = iterations in which the function was invoked (or is still running); after a run that failed for
-        # good the loop goes round with nothing awakened: those empty iterations are not runs
-        empty = [it for it in inst["iters"] if it["t1"] is not None and it.get("outcome") is None]
-        iters = [it for it in inst["iters"] if not (it["t1"] is not None and it.get("outcome") is None)]
-        if empty:
-            items.append({"what": "empty", "n": len(empty), "after_failure": any(
-                (x.get("outcome") or {}).get("final") and (x.get("outcome") or {}).get("exc") for x in iters if x["t0"] <= empty[0]["t0"])})
+        iters = inst["iters"]
         presence = (cfg["interval"] is not None, cfg["sharp"], cfg["idle"] is not None, cfg["initial_delay"] is not None)
-        # spawn → first run
+        who = {"uid": inst["uid"], "id": inst["id"], "spawn": inst["spawn"]}
+        # spawn → first iteration
         hi = iters[0]["t0"] if iters else alive_until
         obs = _obs(inst, inst["spawn"], hi)
         items.append({"what": "first", "obs_ok": obs is not None,
                       "req": ["C10.first", cj, ticks(inst["spawn"]), obs or [], FUEL],
-                      "impl": {"start": ticks(iters[0]["t0"]) if iters else None}, "alive_until": ticks(alive_until),
-                      "shape": {"gap": "first", "presence": presence}, "inst": {"uid": inst["uid"], "id": inst["id"], "spawn": inst["spawn"]}})
+                      "impl": {"start": ticks(iters[0]["t0"]) if iters else None,
+                               "top": _state_json(iters[0]["state"]) if iters else None},
+                      "alive_until": ticks(alive_until), "shape": {"gap": "first", "presence": presence}, "inst": who})
+        failed_before = False
         for k, it in enumerate(iters):
-            if it["t1"] is None or it["p1"] is None or it.get("outcome") is None:
-                continue    # the run was still going on when the scenario ended / the operator was killed
-            call = calls.get((inst["uid"], inst["id"], it["t0"], it["attempt"]))
-            if call is None or call.get("t_end") is None:
-                items.append({"what": "unmatched", "inst": {"uid": inst["uid"], "id": inst["id"]}, "iter": it})
-                continue
-            run = {"start": ticks(it["t0"]), "ended": ticks(it["t1"]), "patched": ticks(it["p1"]), "attempt": it["attempt"],
-                   "res": _res_json(call)}
+            if it["t1"] is None or it["p1"] is None:
+                continue    # still going on when the scenario ended / the operator was killed
+            invoked = it.get("outcome") is not None
+            res = None
+            if invoked:
+                call = calls.get((inst["uid"], inst["id"], it["t0"], it["attempt"]))
+                if call is None or call.get("t_end") is None:
+                    items.append({"what": "unmatched", "inst": who, "iter": it})
+                    continue
+                if ticks(call["t_end"]) != ticks(it["t1"]):
+                    items.append({"what": "clock-mismatch", "inst": who, "iter": it, "call": call})
+                    continue
+                res = _res_json(call)
+            itj = {"start": ticks(it["t0"]), "ended": ticks(it["t1"]), "patched": ticks(it["p1"]), "res": res}
             nxt = iters[k + 1] if k + 1 < len(iters) else None
             hi = nxt["t0"] if nxt else alive_until
             obs = _obs(inst, it["p1"], hi)
-            o = it["outcome"]
-            impl = {"start": ticks(nxt["t0"]) if nxt else None, "attempt": nxt["attempt"] if nxt else None,
-                    "done": bool(o["final"]), "failed": bool(o["final"] and o["exc"]),
-                    "delay": None if o["final"] or o["delay"] is None else ticks(o["delay"])}
+            o = it.get("outcome")
+            impl: dict[str, Any] = {"invokes": invoked, "attempt": it["attempt"],
+                                    "next_start": ticks(nxt["t0"]) if nxt else None,
+                                    "next_top": _state_json(nxt["state"]) if nxt else None}
+            if invoked:    # the state the real `with_outcomes` must have produced, from the observed outcome
+                impl["post"] = {"success": bool(o["final"] and not o["exc"]), "failure": bool(o["final"] and o["exc"]),
+                                "delayed": None if o["final"] or o["delay"] is None else ticks(it["t1"]) + ticks(o["delay"]),
+                                "retries": it["attempt"] + 1}
             iv = cfg["interval"] or cfg["idle"] or 1.0
             dur = it["t1"] - it["t0"]
             durc = "0" if dur == 0 else "<" if dur < iv - T else "=-1" if dur == iv - T else "=" if dur == iv else "=+1" if dur == iv + T else ">"
-            shape = {"gap": "next", "presence": presence, "res": run["res"][0], "dur": durc, "rt": run["patched"] - run["ended"],
-                     "final": bool(o["final"]), "last": nxt is None}
-            items.append({"what": "next", "obs_ok": obs is not None, "req": ["C10.next", cj, run, obs or [], FUEL], "impl": impl,
+            shape = {"gap": "iter", "presence": presence, "res": res[0] if res else "nothing-awakened", "dur": durc,
+                     "rt": itj["patched"] - itj["ended"], "final": bool(o["final"]) if o else None, "last": nxt is None,
+                     "state": (it["state"]["retries"] > 0, it["state"]["failure"], it["state"]["delayed"] is not None)}
+            items.append({"what": "iter", "obs_ok": obs is not None,
+                          "req": ["C10.iter", cj, _state_json(it["state"]), itj, obs or [], FUEL], "impl": impl,
                           "alive_until": ticks(alive_until), "how": inst["how"], "exit": ticks(inst["exit"]) if inst["exit"] is not None else None,
-                          "shape": shape, "call_t_end": ticks(call["t_end"]),
-                          "inst": {"uid": inst["uid"], "id": inst["id"], "spawn": inst["spawn"], "k": k}})
+                          "shape": shape, "failed_before": failed_before, "inst": {**who, "k": k}})
+            if o and o["final"] and o["exc"]:
+                failed_before = True
     return items
 
 
+def _intern(table: dict[str, int], x: Any) -> int:
+    return table.setdefault(leanio.canon(x), len(table))
+
+
 def abstract_resets(sc: dict, tr: dict) -> list[dict]:
-    """One item per (object, instant) at which the operator processed events: was idle_reset_time written?"""
+    """(a) One item per (object, instant) at which the operator processed exactly one event: was idle_reset_time
+    written? (b) One item per timer task: every value of idle_reset_time it read, against the value derived by the
+    model from the history of processed events (reads at an instant in which an event of the object is processed
+    are left out: their order within the instant is not observable)."""
     mem_of = {(i["uid"], i["inc"]): i["mem"] for i in tr["c10"]["instances"]}
     writes: dict[tuple, int] = {}
+    created: dict[int, float] = {}
     for w in tr["c10"]["writes"]:
         writes[(w["mem"], w["t"])] = writes.get((w["mem"], w["t"]), 0) + 1
+        created.setdefault(w["mem"], w["v"])
+    table: dict[str, int] = {}
     groups: dict[tuple, list[dict]] = {}
+    history: dict[tuple, list[list]] = {}
     first_seen: set[tuple] = set()
     for c in tr["cycles"]:
-        if (c["uid"], c["inc"]) not in mem_of or c["event_type"] == "DELETED":
+        key = (c["uid"], c["inc"])
+        if key not in mem_of:
             continue
-        if (c["uid"], c["inc"]) not in first_seen:     # the memory is created (and stamped) in this cycle
-            first_seen.add((c["uid"], c["inc"]))
+        e = _intern(table, c["ess_norm"])
+        lh = None if c["lh_norm"] is None else _intern(table, c["lh_norm"])
+        history.setdefault(key, []).append([ticks(c["t0"]), e, lh])
+        if c["event_type"] == "DELETED":
             continue
-        groups.setdefault((c["uid"], c["inc"], c["t0"]), []).append(c)
+        if key not in first_seen:     # the memory is created (and stamped) in this cycle
+            first_seen.add(key)
+            continue
+        groups.setdefault((c["uid"], c["inc"], c["t0"]), []).append({"ess": e, "lh": lh})
     items = []
     for (uid, inc, t0), cs in groups.items():
         if len(cs) != 1:
             continue        # several events of one object processed in one instant: not attributable
-        lh = cs[0]["lh_same"]
-        items.append({"what": "reset", "req": ["C10.reset", "none" if lh is None else "same" if lh else "differs"],
+        lh, e = cs[0]["lh"], cs[0]["ess"]
+        items.append({"what": "reset", "req": ["C10.reset", lh, e],
                       "impl": (mem_of[(uid, inc)], t0) in writes, "inst": {"uid": uid, "t0": t0}, "obs_ok": True,
-                      "shape": {"gap": "reset", "lh": "none" if lh is None else "same" if lh else "differs"}})
+                      "shape": {"gap": "reset", "lh": "none" if lh is None else "same" if lh == e else "differs"}})
+    for inst in tr["c10"]["instances"]:
+        key = (inst["uid"], inst["inc"])
+        evs = history.get(key, [])
+        if inst["mem"] not in created:
+            continue
+        busy = {e[0] for e in evs}
+        reads: dict[int, int] = {}
+        tied = 0
+        for t, v in inst["reads"]:
+            tt = ticks(t)
+            if tt in busy:
+                tied += 1
+                continue
+            reads[tt] = ticks(v)
+        ts = sorted(reads)
+        items.append({"what": "view", "req": ["C10.view", ticks(created[inst["mem"]]), evs, ts], "impl": [reads[t] for t in ts],
+                      "inst": {"uid": inst["uid"], "id": inst["id"], "spawn": inst["spawn"]}, "obs_ok": True, "tied": tied,
+                      "n": len(ts), "shape": {"gap": "view", "events": min(len(evs), 6), "reads": min(len(ts), 6)}})
     return items
 
 
 def compare(ctx: Ctx, sc: dict, item: dict, out: Any) -> None:
     wh = {"scenario": sc, "gap": item["inst"], "request": item["req"]}
-    if item["what"] == "reset":
-        if not out or out[0] != "ok":
-            ctx.tie_fail("driver rejected a reset query", {**wh, "answer": out})
-        else:
-            ctx.compare("C10 idle reset decision", item["impl"], out[1], wh)
-        return
     if not out or out[0] != "ok":
-        ctx.tie_fail("driver rejected a gap", {**wh, "answer": out})
+        ctx.tie_fail("driver rejected a request", {**wh, "answer": out})
         return
     m = out[1]
+    if item["what"] == "reset":
+        ctx.compare("C10 idle reset decision", item["impl"], m, wh)
+        return
+    if item["what"] == "view":
+        ctx.compare("C10 idle_reset_time derived from the event history", item["impl"], m, wh)
+        return
     res = m["res"]
     impl = item["impl"]
-    if item["what"] == "next":
-        if item["call_t_end"] != item["req"][2]["ended"]:
-            ctx.tie_fail("probe and handler log disagree on the function's end", {**wh, "call_t_end": item["call_t_end"]})
-        # the outcome classification and the next retry kwarg
-        ctx.compare("C10 outcome classification", {"done": impl["done"], "failed": impl["failed"], "delay": impl["delay"]},
-                    {"done": m["done"], "failed": m["failed"], "delay": m["delay"]}, wh)
-    if impl["start"] is not None:
-        model: dict[str, Any] = {"start": res[1] if res[0] == "start" else res}
-        real: dict[str, Any] = {"start": impl["start"]}
-        if item["what"] == "next":
-            model["attempt"] = m["attempt"]
-            real["attempt"] = impl["attempt"]
+    if item["what"] == "first":
+        nxt_start, nxt_top = impl["start"], impl["top"]
+    else:
+        # does this iteration invoke the function, with which retry kwarg, and which state does it leave
+        ctx.compare("C10 invocation decision", {"invokes": impl["invokes"], "attempt": impl["attempt"]},
+                    {"invokes": m["invokes"], "attempt": m["attempt"]}, wh)
+        if impl["invokes"] and item.get("failed_before"):
+            ctx.tie_fail("C10: the function was invoked after the timer had failed for good", {"input": wh, "impl": impl, "model": m})
+        if "post" in impl:
+            ctx.compare("C10 state after the run", impl["post"], m["state"], wh)
+        nxt_start, nxt_top = impl["next_start"], impl["next_top"]
+    if nxt_start is not None:
         ctx.count("gate", "compared")
-        ctx.compare("C10 next start", real, model, wh)
+        ctx.compare("C10 next start", {"start": nxt_start, "top": nxt_top},
+                    {"start": res[1] if res[0] == "start" else res, "top": m["top"]}, wh)
         return
-    # no further run was observed: the model must not have predicted one while the task was alive
+    # no further iteration was observed: the model must not have predicted one while the task was alive
     ctx.tie_comparisons += 1
     if res[0] == "start" and res[1] < item["alive_until"]:
-        ctx.tie_fail("C10 next start: the model predicts a run that did not happen",
+        ctx.tie_fail("C10 next start: the model predicts an iteration that did not happen",
                      {"input": wh, "impl": {"start": None, "alive_until": item["alive_until"]}, "model": {"start": res[1]}})
     elif res[0] == "ended":
-        if item.get("how") != "returned" or item.get("exit") != item["req"][2]["patched"]:
+        if item.get("how") != "returned" or item.get("exit") != item["req"][3]["patched"]:
             ctx.tie_fail("C10: the model says the loop breaks, the timer task did not return there",
                          {"input": wh, "impl": {"how": item.get("how"), "exit": item.get("exit")}, "model": res})
         ctx.count("gate", "one-shot-ended")
-    elif res[0] == "never":
-        ctx.count("gate", "failed-for-good:no-further-run")
     else:
         ctx.count("gate", "open-ended:" + res[0])
 
@@ -1072,14 +1153,15 @@ def _evaluate(ctx: Ctx, scenarios: list[dict], results: list[dict], stats: dict,
                 reqs.append(item["req"])
                 meta.append((sc, item))
                 continue
-            if item["what"] == "unmatched":
-                ctx.count("gate", "iteration-without-function-call")
+            if item["what"] == "view":
+                ctx.case(key=item["shape"], nontrivial=item["n"] > 0)
+                ctx.count("view-from-history", "reads-compared", item["n"])
+                ctx.count("view-from-history", "reads-at-an-event-instant(skipped)", item["tied"])
+                reqs.append(item["req"])
+                meta.append((sc, item))
                 continue
-            if item["what"] == "empty":
-                ctx.count("gate", "empty-iterations-after-a-final-failure" if item["after_failure"] else "empty-iterations-otherwise", item["n"])
-                if not item["after_failure"]:
-                    ctx.tie_fail("C10: a loop iteration invoked nothing although no run had failed for good",
-                                 {"input": {"scenario": sc}, "impl": item, "model": "every iteration is a run"})
+            if item["what"] in ("unmatched", "clock-mismatch"):
+                ctx.tie_fail("C10: an invoking iteration has no matching record in the handler log", {"input": {"scenario": sc}, "impl": item})
                 continue
             if item["what"] == "crashed":
                 ctx.tie_fail("C10: the timer task ended with an exception / spun without suspending (the model's loop does neither)",
@@ -1088,9 +1170,9 @@ def _evaluate(ctx: Ctx, scenarios: list[dict], results: list[dict], stats: dict,
             shape = item["shape"]
             ctx.case(key=shape, nontrivial=True,
                      sample={"scenario_seed": sc.get("seed"), "request": item["req"], "impl": item["impl"]}
-                     if item["what"] == "next" and item["impl"]["start"] is not None and shape["rt"] > 0 and shape["presence"][2] else None)
-            if item["what"] == "next":
-                ctx.count("result", shape["res"] + ("/final" if shape["final"] else "/retry"))
+                     if item["what"] == "iter" and item["impl"]["next_start"] is not None and shape["rt"] > 0 and shape["presence"][2] else None)
+            if item["what"] == "iter":
+                ctx.count("result", shape["res"] + ("" if shape["final"] is None else "/final" if shape["final"] else "/retry"))
                 ctx.count("duration-vs-interval", shape["dur"])
                 ctx.count("patch-round-trips(ticks)", shape["rt"])
             if not item["obs_ok"]:
@@ -1107,9 +1189,10 @@ def _evaluate(ctx: Ctx, scenarios: list[dict], results: list[dict], stats: dict,
         for (sc, item), out in zip(meta, outs):
             compare(ctx, sc, item, out)
             # margin of the idle gate at the observed start (0 = started exactly when the idle time was over)
-            if item["what"] != "reset" and item["impl"]["start"] is not None and item["req"][1]["idle"] is not None:
-                obs = dict((t, v) for t, v in item["req"][3])
-                s = item["impl"]["start"]
+            if item["what"] in ("first", "iter") and item["req"][1]["idle"] is not None and \
+                    (item["impl"]["start"] if item["what"] == "first" else item["impl"]["next_start"]) is not None:
+                obs = dict((t, v) for t, v in item["req"][3 if item["what"] == "first" else 4])
+                s = item["impl"]["start"] if item["what"] == "first" else item["impl"]["next_start"]
                 if s in obs:
                     mg = s - obs[s] - item["req"][1]["idle"]
                     ctx.count("idle-margin-at-start(ticks)", mg if mg <= 2 else "3+")
